@@ -8,6 +8,8 @@ A sequence is a list of segments:
 proj is a tuple of steps applied to the element: () = the element itself; ("lookup", map_term) = map[e] / map.get(e).unwrap();
 ("fmt", literal) = format!(literal, e); ("field", name) ...
 None means "not understood" (callers fail closed)."""
+import re
+
 from .mir import is_call, peel, strip_generics, subterms
 from .rules import elem_of
 
@@ -134,6 +136,11 @@ def iter_seq(b, t, depth=0):
         # `opt.iter().flat_map(|m| m.keys())`: all keys of the map when there is one
         src = _strip(t[2][0])
         fn = t[2][1]
+        if is_call(src, ["Option::iter", "IntoIterator::into_iter"]) and isinstance(fn, tuple) and fn and fn[0] == "fn" and \
+                re.search(r"(HashMap|BTreeMap)(::<[^>]*>)?::(keys|values)$", strip_generics(fn[1]) if fn[1] else ""):
+            # `opt.iter().flat_map(HashMap::keys)`: the function item itself
+            opt = peel(src[2][0], transparent=ID_CALLS)
+            return [("each", ("field", ("downcast", opt, "Some"), "0"), (), t[3])]
         if is_call(src, ["Option::iter", "IntoIterator::into_iter"]) and isinstance(fn, tuple) and fn and fn[0] == "agg" and fn[1] == "closure":
             cl = f.closure(fn[2])
             if cl is not None:
